@@ -17,7 +17,7 @@ PROPS["C13"] = dict(
         SC_NOTE,
     ],
     runs=[
-        run("program", "c13_rc", "log_program", "rc", dict(procs=8, cases=2500), dict(procs=16, cases=30000)),
+        run("program", "c13_rc", "log_program", "rc", dict(procs=8, cases=9000), dict(procs=16, cases=80000)),
         # f5_witness is only ever replayed (known/C13/F5.json); it has no search budget
         run("f5-witness", "c13_rc", "f5_witness", "rc", None, None),
         run("threads", "c13_rc", "log_threads", "rc", dict(procs=3, cases=600), dict(procs=6, cases=6000), deterministic=False),
